@@ -1353,6 +1353,9 @@ func genWrap(r *common.Rand) {
 	if r.Chance(1, 3) {
 		sc.N = 1 + r.Intn(3)
 	}
+	if r.Chance(1, 5) {
+		sc.CursorKey, sc.CursorSalt = common.Pick(r, []string{"token", "next"}), common.Pick(r, []string{"", "p;"})
+	}
 	sc.NoAPI = r.Chance(1, 3)
 	sc.Index = sc.NoAPI || r.Chance(1, 3)
 	if sc.NoAPI && r.Chance(1, 6) {
